@@ -8,6 +8,7 @@ pub mod c06;
 pub mod c07;
 pub mod c09;
 pub mod c10;
+pub mod c11;
 pub mod c12;
 pub mod c13;
 pub mod c14;
@@ -45,6 +46,10 @@ pub fn lookup(id: &str) -> Option<Prop> {
         "C10" => Prop {
             check: c10::check,
             replay: c10::replay,
+        },
+        "C11" => Prop {
+            check: c11::check,
+            replay: c11::replay,
         },
         "C12" => Prop {
             check: c12::check,
